@@ -41,6 +41,14 @@ pub struct Scn {
     /// execute in a child process (a script that overflows the native stack or aborts kills it)
     #[serde(default)]
     pub isolated: bool,
+    /// automatic collection threshold of the run (a collection that lands inside a native must
+    /// not turn into a panic either)
+    #[serde(default = "default_gc_threshold")]
+    pub gc_threshold: u32,
+}
+
+fn default_gc_threshold() -> u32 {
+    100
 }
 
 pub struct C06;
@@ -109,7 +117,7 @@ impl Check for C06 {
                 answers_tape: Tape::from_vec(vec![]),
                 case: None,
                 proc_case: None,
-                isolated: false,
+                isolated: false, gc_threshold: *rng.pick(&[100u32, 100, 1, 3, 7])
             };
         }
         let templates = loop_templates();
@@ -122,7 +130,7 @@ impl Check for C06 {
                 answers_tape: Tape::from_vec(vec![]),
                 case: None,
                 proc_case: None,
-                isolated: false,
+                isolated: false, gc_threshold: 100
             };
         }
         let holes = if rng.chance(0.4) { 1 + rng.below(3) } else { 0 };
@@ -137,7 +145,7 @@ impl Check for C06 {
             answers_tape: Tape::random(rng, 16),
             case: Some(case),
             proc_case: None,
-            isolated: false,
+            isolated: false, gc_threshold: *rng.pick(&[100u32, 100, 1, 13])
         }
     }
 
@@ -184,7 +192,7 @@ impl Check for C06 {
             modules: Default::default(),
             answers: scn.case.as_ref().map(|c| c.answers.clone()).unwrap_or_default(),
             driver: Driver::Step,
-            gc: GcSched::threshold(100),
+            gc: GcSched::threshold(scn.gc_threshold),
             tape: scn.answers_tape.clone(),
             fuel: 4_000_000,
             clock_start: 0,
@@ -380,6 +388,9 @@ const NATIVE_CALLS: &[&str] = &[
     "(() => { let n = 0; for (let s = 1; s <= 12; s++) { let t = s + @I; const rnd = () => { t = (Math.abs(t | 0) * 1103515245 + 12345) % 2147483648; return t / 2147483648; }; const a: number[] = \"x\".repeat(20 + s * 3).split(\"\").map((_: any, i: number) => i); a.sort(() => rnd() - 0.5); n += a.length; } return n; })()",
     "(() => { let n = 0; for (let s = 2; s <= 9; s++) { const a: number[] = \"x\".repeat(19 + s * 5).split(\"\").map((_: any, i: number) => (i * s) % 13); a.sort((x: number, y: number) => ((x * 7 + y * s) % 5) - 2); n += a[0] + a.length; } return n; })()",
     "(() => { let n = 0; for (let s = 1; s <= 8; s++) { let k = 0; const a: any[] = \"x\".repeat(24 + s * 4).split(\"\").map((_: any, i: number) => ({ v: (i * 11) % (s + 6) })); const b: any[] = a.toSorted((x: any, y: any) => (k++ % (s + 1)) - 1); n += b.length + a.length; } return n; })()",
+    "structuredClone(new Map<any, any>([[{ a: 1 }, { b: [1, 2] }], [\"k\", [3, { c: @N }]], [@N, @S]])).size", "structuredClone(new Set<any>([{ a: 1 }, [2, 3], @A, @S])).size", "structuredClone({ m: new Map([[1, { x: @A }]]), s: new Set([@A]), d: new Date(0), r: /x/g, e: new Error(@S) }).m.size",
+    "structuredClone([new Map([[@S, new Set([{ deep: @A }])]])])[0].size", "JSON.stringify([...structuredClone(new Map([[{ k: 1 }, new Map([[{ k: 2 }, @A]])]])).entries()])",
+    "/^(?:(?=a)a+)+$/.test(\"a\".repeat(30) + \"!\")", "(\"a\".repeat(28) + \"!\").replace(/^(a+)+\\1$/, \"x\").length", "/(x+x+)+y/.test(\"x\".repeat(28))", "/^(\\w+\\s?)*$/.test(\"word \".repeat(8) + \"!\")", "(\"ab\".repeat(14) + \"c\").match(/^((?!c)(a|b)+)+$/)",
     "/[/.exec ? 1 : 0", "new RegExp(\"[\" + @S + \"]\").test(@S)", "new RegExp(\"a{\" + @I + \"}\").test(\"aaa\")", "new RegExp(\"\\\\\" + @I).test(@S)", "/(?:)/.test(@S)", "/\\u{1F600}/u.test(@S)", "@S.match(/\\p{L}/gu)",
 ];
 
@@ -743,9 +754,41 @@ fn batch_scenario(seed: u64, i: usize) -> Scn {
     C06.generate(&mut r, i, Tier::Quick)
 }
 
+/// CPU seconds (user + system) this process has used so far, from /proc/self/stat. CPU time, not
+/// wall time: the load of the machine must not decide a verdict.
+fn process_cpu_seconds() -> f64 {
+    let s = std::fs::read_to_string("/proc/self/stat").unwrap_or_default();
+    // fields after the command name in parentheses; utime and stime are the 14th and 15th fields
+    let rest = s.rsplit_once(')').map(|x| x.1).unwrap_or("");
+    let f: Vec<&str> = rest.split_whitespace().collect();
+    let ticks = f.get(11).and_then(|x| x.parse::<f64>().ok()).unwrap_or(0.0) + f.get(12).and_then(|x| x.parse::<f64>().ok()).unwrap_or(0.0);
+    ticks / 100.0
+}
+
+/// One scenario may use this much CPU time before the worker gives up on it (one step() that
+/// never comes back from a native, e.g. runaway regular-expression backtracking).
+pub const SCENARIO_CPU_BUDGET_S: f64 = 25.0;
+
 pub fn batch_worker(seed: u64, from: usize, to: usize) {
     use std::io::Write;
     let out = std::io::stdout();
+    // watchdog on CPU time: the scenario thread publishes (index, cpu at start); the monitor ends the
+    // process with exit code 3 when one scenario has burnt its budget
+    let current: std::sync::Arc<std::sync::Mutex<Option<(usize, f64)>>> = Default::default();
+    {
+        let current = current.clone();
+        std::thread::spawn(move || {
+            loop {
+                std::thread::sleep(std::time::Duration::from_millis(200));
+                if let Some((i, start)) = *current.lock().unwrap()
+                    && process_cpu_seconds() - start > SCENARIO_CPU_BUDGET_S
+                {
+                    println!("T {}", i);
+                    std::process::exit(3);
+                }
+            }
+        });
+    }
     // a big stack for the legitimate part; a native-stack overflow still kills the worker
     let h = std::thread::Builder::new().stack_size(64 * 1024 * 1024).spawn(move || {
         for i in from..to {
@@ -755,7 +798,9 @@ pub fn batch_worker(seed: u64, from: usize, to: usize) {
                 let _ = writeln!(o, "S {}", i);
                 let _ = o.flush();
             }
+            *current.lock().unwrap() = Some((i, process_cpu_seconds()));
             let rep = crate::framework::execute_caught(&C06, &scn);
+            *current.lock().unwrap() = None;
             let counters = serde_json::to_string(&rep.counters).unwrap_or_default();
             let mut o = out.lock();
             let _ = writeln!(
@@ -875,9 +920,22 @@ pub fn batch_stratum(seed: u64, n: usize, threads: usize, cov: &mut std::collect
         let Ok(o) = c.wait_with_output() else { continue };
         let stdout = String::from_utf8_lossy(&o.stdout).to_string();
         let (mut last_started, mut last_done): (Option<usize>, Option<usize>) = (None, None);
+        let mut timed_out = false;
         for l in stdout.lines() {
             let p: Vec<&str> = l.splitn(7, ' ').collect();
-            if p.first() == Some(&"S") {
+            if p.first() == Some(&"T") {
+                if let Some(i) = p.get(1).and_then(|x| x.parse::<usize>().ok())
+                    && fails.len() < 4
+                {
+                    let mut scn = batch_scenario(seed, i);
+                    scn.isolated = true;
+                    fails.push((
+                        Failure::new("step_did_not_return_within_cpu_budget", format!("scenario {} used more than {} CPU seconds", i, SCENARIO_CPU_BUDGET_S), json!({"index": i, "cpu_budget_s": SCENARIO_CPU_BUDGET_S})),
+                        serde_json::to_value(&scn).unwrap_or_default(),
+                    ));
+                    timed_out = true;
+                }
+            } else if p.first() == Some(&"S") {
                 last_started = p.get(1).and_then(|x| x.parse().ok());
             } else if p.first() == Some(&"R") {
                 last_done = p.get(1).and_then(|x| x.parse().ok());
@@ -904,7 +962,7 @@ pub fn batch_stratum(seed: u64, n: usize, threads: usize, cov: &mut std::collect
                 }
             }
         }
-        if !o.status.success() && fails.len() < 4 {
+        if !o.status.success() && !timed_out && fails.len() < 4 {
             let culprit = match (last_started, last_done) {
                 (Some(s), Some(d)) if s != d => Some(s),
                 (Some(s), None) => Some(s),
